@@ -145,6 +145,7 @@ def check(mod, run, a):
     P = prove.Prover(engines[0], run.tier, run.seed)
     P.prove_all(run.obs, lambda ob: ob.info.get('inputs', []))
     run.prover = P
+    run.obs += getattr(P, 'cut_obligations', [])
     # extra (bounded / native) checks supplied by the spec
     run.bounded = []
     extra_viol = []
